@@ -11,7 +11,7 @@ from vf.ref import incremental as refinc
 
 ID = "C04"
 BOUNDS = {
-    "quick": "20 defer/stream requests (+2 without directives) x site sets (<=3 awaitable sites incl. async-generator sources) x 6 data faults x early execution off/on x error propagation on/off x every completion order incl. consumer pulls (complete); early release <=1 on fault-free combinations with <=120 schedules",
+    "quick": "26 defer/stream requests (+2 without directives) x site sets (<=3 awaitable sites incl. async-generator sources) x 6 data faults x early execution off/on x error propagation on/off x every completion order incl. consumer pulls (complete); early release <=1 on fault-free combinations with <=120 schedules",
     "thorough": "early release <=2 on fault-free and <=1 on faulted combinations with <=2500 schedules; cap 300000 executions per exploration",
 }
 RULE = (
@@ -45,6 +45,12 @@ REQUESTS = [
      [["u1.name", "r1.model"]], None),
     ("shared_nested_fail", '{ me { ... @defer(label: "A") { nn } ... @defer(label: "C") { name ... @defer(label: "B") { nn id } } } }', {"B": "C"},
      [[], ["u1.nn"], ["u1.name", "u1.nn"]], None),
+    ("shared_nested_healthy", '{ me { ... @defer(label: "A") { name nn } ... @defer(label: "B") { id ... @defer(label: "B1") { name tags } } } }', {"B1": "B"},
+     [[], ["u1.name"], ["u1.nn", "u1.tags:items"]], None),
+    ("defers_in_list_in_defer", '{ ... @defer(label: "o") { users { id ... @defer(label: "a") { best { id } } ... @defer(label: "b") { best { name } } } } }', {"a": "o", "b": "o"},
+     [[], ["u1.best", "u2.best"], ["u3.name", "u2.name"]], None),
+    ("nested_defers_in_list", '{ ... @defer(label: "o") { users { id ... @defer(label: "a") { name ... @defer(label: "n") { nn } } } } }', {"a": "o", "n": "a"},
+     [[], ["u1.name", "u3.name"], ["u1.nn", "u2.nn"]], None),
     ("same_frag", '{ me { ...F ...F @defer(label: "a") } other { ...F @defer(label: "b") } } fragment F on User { name best { id } }', {},
      [["u1.name", "u2.name"], ["u1.best"]], None),
     ("defer_if", 'query ($v: Boolean!) { me { ... @defer(if: $v, label: "a") { name } ... @defer(if: false) { id } } }', {}, [["u1.name"]], [{"v": True}, {"v": False}]),
@@ -75,6 +81,10 @@ def shards(tier):
             for early in (False, True):
                 for fi in range(len(incr.FAULTS)):
                     out.append(("req", (ri, si, early, fi)))
+    for a in range(2):
+        for b in range(3):
+            for early in (False, True):
+                out.append(("gen", (a, b, early)))
     return out
 
 
@@ -88,16 +98,18 @@ def with_noprop(text):
     return "query " + NOPROP + " " + text
 
 
-def plain_response(schema, text, fault, variables, noprop):
+def plain_response(schema, text, fault, variables, noprop, data=None):
     from graphql import execute_sync, parse
 
-    key = (text, fault, json.dumps(variables), noprop)
+    key = (text, repr(fault), json.dumps(variables, default=repr), noprop, data is not None)
     r = _plain_cache.get(key)
+    if len(_plain_cache) > 4000:
+        _plain_cache.clear()
     if r is None:
         t = incr.strip_incremental(text)
         if noprop:
             t = with_noprop(t)
-        root, _objs = incr.users(fault)
+        root, _objs = data(fault) if data is not None else incr.users(fault)
         res = execute_sync(schema, parse(t), root, variable_values=variables, field_resolver=incr.resolver())
         r = _plain_cache[key] = res.formatted
     return r
@@ -111,7 +123,75 @@ def err_paths(errors):
     return sorted(json.dumps(e.get("path")) for e in errors or [])
 
 
-def judge(obs, schema, text, enclosing, fault, variables, noprop, label, payload, res):
+_fk_cache = {}
+
+
+def fragment_keys(text):
+    """{label: response keys selected directly by the deferred fragment with that label} (nested deferred fragments and
+    type-conditioned parts excluded) - read off the document."""
+    from graphql import parse
+
+    r = _fk_cache.get(text)
+    if r is not None:
+        return r
+    doc = parse(text)
+    frags = {d.name.value: d for d in doc.definitions if type(d).__name__ == "FragmentDefinitionNode"}
+    out = {}
+
+    def defer_label(node):
+        for d in node.directives or ():
+            if d.name.value == "defer":
+                lab, cond = None, True
+                for a in d.arguments or ():
+                    if a.name.value == "label" and type(a.value).__name__ == "StringValueNode":
+                        lab = a.value.value
+                    if a.name.value == "if":
+                        cond = getattr(a.value, "value", None)
+                return (lab, cond)
+        return None
+
+    def has_cond(node):
+        return any(d.name.value in ("skip", "include") for d in node.directives or ())
+
+    def keys_of(selset, acc, seen):
+        for s in selset.selections:
+            k = type(s).__name__
+            if has_cond(s):
+                continue
+            if k == "FieldNode":
+                acc.append(s.alias.value if s.alias else s.name.value)
+            elif k == "InlineFragmentNode":
+                if defer_label(s) is None and s.type_condition is None:
+                    keys_of(s.selection_set, acc, seen)
+            elif s.name.value in frags and s.name.value not in seen and defer_label(s) is None:
+                pass  # named fragments carry a type condition: conditional keys, not demanded
+
+    def walk(selset, seen):
+        for s in selset.selections:
+            k = type(s).__name__
+            if k == "FieldNode":
+                if s.selection_set:
+                    walk(s.selection_set, seen)
+            elif k == "InlineFragmentNode":
+                dl = defer_label(s)
+                if dl and dl[0] and dl[1] is True and s.type_condition is None and not has_cond(s):
+                    acc = []
+                    keys_of(s.selection_set, acc, seen)
+                    out.setdefault(dl[0], acc)
+                walk(s.selection_set, seen)
+            elif s.name.value in frags and s.name.value not in seen:
+                walk(frags[s.name.value].selection_set, seen | {s.name.value})
+
+    for d in doc.definitions:
+        if type(d).__name__ == "OperationDefinitionNode":
+            walk(d.selection_set, frozenset())
+    _fk_cache[text] = out
+    if len(_fk_cache) > 5000:
+        _fk_cache.clear()
+    return out
+
+
+def judge(obs, schema, text, enclosing, fault, variables, noprop, label, payload, res, data=None):
     """Shared verdict for one execution; returns the Merged or None."""
     res.evaluations += 1
     if obs.status != "done":
@@ -122,8 +202,8 @@ def judge(obs, schema, text, enclosing, fault, variables, noprop, label, payload
     except refinc.ProtocolViolation as e:
         res.violation("protocol:" + e.signature, f"{label}: {e.detail}; payloads {incr.dumps(obs.payloads)}", payload)
         return None
-    plain = plain_response(schema, text, fault, variables, noprop)
-    nonprop = plain if noprop else plain_response(schema, text, fault, variables, True)
+    plain = plain_response(schema, text, fault, variables, noprop, data)
+    nonprop = plain if noprop else plain_response(schema, text, fault, variables, True, data)
     source_fails = any("!" in s for s in payload.get("sites", []))
     if (not plain.get("errors") or noprop) and not source_fails:
         if canon(m.data) != canon(plain.get("data")):
@@ -138,6 +218,21 @@ def judge(obs, schema, text, enclosing, fault, variables, noprop, label, payload
         if why:
             res.violation("merged_not_a_refinement", f"{label}: {why}; merged {canon(m.data)} non-propagating reference {canon(nonprop.get('data'))}; failed ids at {withheld}", payload)
             return None
+        # a fragment reported as completed WITHOUT errors must have delivered all of its own fields
+        fk = fragment_keys(text)
+        for cid, (pe, cerrs) in m.completed.items():
+            keys = fk.get(pe.get("label"))
+            if cerrs or not keys:
+                continue
+            try:
+                obj = refinc._get(m.data, pe["path"], "completed fragment")
+            except refinc.ProtocolViolation:
+                continue
+            if isinstance(obj, dict):
+                missing = [k2 for k2 in keys if k2 not in obj]
+                if missing:
+                    res.violation("successful_fragment_incomplete", f"{label}: fragment {pe.get('label')!r} (id {cid}) at {pe['path']} completed without errors but its fields {missing} never arrived; merged {canon(m.data)}", payload)
+                    return None
         if not m.errors and (plain.get("errors") or source_fails and m.failed_ids):
             res.violation("errors_lost", f"{label}: plain response has errors {err_paths(plain.get('errors'))} but the assembled response has none", payload)
             return None
@@ -205,14 +300,115 @@ def run_request(arg, tier, res, only=None):
                 res.notes.append(f"cap {cap} hit with early releases: {name} sites {sites} fault {fault}")
 
 
+# ---- generated operations: every placement of @defer / @stream on operations near the minimal one -----------------
+
+GEN_FAULTS = [None, ("User", "nn", "null"), ("User", "name", "raise"), ("User", "friends", "null"), ("User", "nnFriends", "null")]
+
+
+def gen_data(fault):
+    from vf.gen import data as gdata
+
+    roots, objs = gdata.build(_gen_schema(), fault=fault)
+    return roots["query"], {k: v[0] for k, v in objs.items()}
+
+
+_gs = None
+
+
+def _gen_schema():
+    global _gs
+    if _gs is None:
+        _gs = incr.make_schema()
+    return _gs
+
+
+def enclosing_from_labels(text):
+    import re
+
+    labels = re.findall(r'@(?:defer|stream)\(label: "([^"]+)"', text)
+    defers = re.findall(r'@defer\(label: "([^"]+)"', text)
+    out = {}
+    for l in labels:
+        # only an enclosing *deferred fragment* delays the announcement; a stream stays pending while its items arrive
+        parents = [p for p in defers if p != l and l.startswith(p + "_")]
+        if parents:
+            out[l] = max(parents, key=len)
+    return out
+
+
+def run_gen(arg, tier, res, only=None):
+    from graphql import GraphQLSyntaxError, parse, validate
+
+    from vf.gen import docs as gdocs
+
+    a, b, early = arg
+    schema = _gen_schema()
+    k = 2 if tier == "quick" else 3
+
+    def scenario(c):
+        g = gdocs.DocGen(c, schema, maxdepth=2, incremental=True, free=("incr", "rootfield"), lean=True)
+        return g.operation()
+
+    def visit(c, out):
+        text, values = out
+        if "@defer" not in text and "@stream" not in text:
+            return
+        try:
+            doc = parse(text)
+        except GraphQLSyntaxError as e:
+            raise AssertionError(f"unparseable generated text {text!r}: {e}") from e
+        if validate(schema, doc):
+            res.count("generated_rejected_by_validation")
+            return
+        res.count("generated_documents")
+        enclosing = enclosing_from_labels(text)
+        for fault in GEN_FAULTS:
+            if fault is not None and fault[1] not in text:
+                continue
+            for noprop in ((False, True) if fault else (False,)):
+                t = with_noprop(text) if noprop else text
+                d2 = parse(t)
+                c2 = None
+                from vf.engine.choice import Chooser
+
+                ch = Chooser(())
+                # no awaitable sites: the only schedule freedom is the consumer's pulls (sequential), so one execution per case
+                obs = incr.run(ch, schema, d2, [], fault, early, early_bound=False, variables=values, data=gen_data)
+                res.executions += 1
+                label = f"generated {text!r} vars={values} fault={fault} early_execution={early} noprop={noprop}"
+                payload = {"gen": True, "doc": text, "vars": values, "fault": list(fault) if fault else None, "noprop": noprop, "early": early}
+                m = judge(obs, schema, text, enclosing, fault, values, noprop, label, payload, res, data=gen_data)
+                if m is not None:
+                    res.outcome((text, repr(fault), noprop, incr.dumps(obs.payloads)))
+        if len(res.samples) < 1 and text.count("@") >= 2:
+            res.sample({"generated_operation": text, "faults": [repr(f) for f in GEN_FAULTS]})
+
+    if only is not None:
+        doc_text, values, fault, noprop = only
+        from vf.engine.choice import Chooser
+
+        t = with_noprop(doc_text) if noprop else doc_text
+        obs = incr.run(Chooser(()), schema, parse(t), [], fault, early, early_bound=False, variables=values, data=gen_data)
+        judge(obs, schema, doc_text, enclosing_from_labels(doc_text), fault, values, noprop, "replay", {}, res, data=gen_data)
+        return
+    res.add_stats(explore(scenario, k, visit, root=(a, b)))
+
+
 def run_shard(shard, tier):
     res = Result()
-    run_request(shard[1], tier, res)
+    if shard[0] == "gen":
+        run_gen(shard[1], tier, res)
+    else:
+        run_request(shard[1], tier, res)
     return res
 
 
 def replay(payload):
     res = Result()
+    if payload.get("gen"):
+        fault = tuple(payload["fault"]) if payload.get("fault") else None
+        run_gen((0, 0, payload["early"]), "quick", res, only=(payload["doc"], payload["vars"], fault, payload["noprop"]))
+        return [{"signature": v["signature"], "summary": v["summary"]} for v in res.violations]
     run_request((payload["request"], payload["site_set"], payload["early"]), "thorough", res,
                 only=(payload["fault"], payload["variables"], payload["noprop"], payload["choices"]))
     return [{"signature": v["signature"], "summary": v["summary"]} for v in res.violations]
